@@ -294,7 +294,7 @@ pub fn build_world(scn: &Scenario, built: &Built, layout: &Layout, faults: &[Dis
             continue; // block not stored in this layout (index segment only)
         }
         // block 0 has no undo data in Bitcoin Core's index
-        let st = if h < scn.index.pruned_below {
+        let st = if h < scn.index.pruned_below || scn.index.pruned_at.contains(&h) {
             5
         } else if h == 0 {
             5 | 8
